@@ -350,7 +350,7 @@ pub fn main(a: &vcommon::Args) {
         // inbound <out>   (C43)
         "inbound" => {
             let mut out = Out::create(a.get(1));
-            for sender in [1u64, 2] {
+            for sender in [0u64, 1, 2] {
                 for provider in [0u64, 1, 2, 3] {
                     for filt in [false, true] {
                         for pre in [false, true] {
